@@ -71,3 +71,18 @@ Definition chain_rule_value_imgF (A : mat) (csF : list Qc) (r c : nat) (d w : ve
 
 Definition check_chain_rule_imgF (A : mat) (csF : list Qc) (r c : nat) (d w : vec) (obs : list Q) : bool :=
   Nat.eqb (length w) (r * c) && qcl_eqb (chain_rule_value_imgF A csF r c d w) (qvec obs).
+
+(* ---- finite differences of forward() in parameter space (the property's observation point) -------- *)
+(* (J_F(par2fun w) J_G(w)) h : what C12_gradient_is_transposed_jacobian_of_forward says the derivative of forward at w along h is *)
+Definition chain_rule_jvp (A : mat) (csF : list Qc) (dg : geo) (w h : vec) : option vec :=
+  match geo_jac dg w, g_par2fun dg w with
+  | Some JG, Ok wf => Some (qmatvec (qmatmul (length w) (poly_jac A (pderiv csF) wf) JG) h)
+  | _, _ => None
+  end.
+
+(* checker: against the exact 7-point central difference of the implementation's forward() (exact for the polynomial families) *)
+Definition check_fd (tol : bool) (A : mat) (csF : list Qc) (dg : geo) (w h : vec) (obs : list Q) : bool :=
+  match chain_rule_jvp A csF dg w h with
+  | Some v => if tol then qcl_close tol9 (qvec obs) v else qcl_eqb v (qvec obs)
+  | None => false
+  end.
